@@ -16,7 +16,12 @@ def run_convs(pid, convs, rep, keys=("wire", "cbs", "closed", "rets"), monitors=
               extra_check=None, repeat=1):
     """convs: list of Conv. Returns coverage dict; registers violations on rep."""
     multi = bool(convs) and isinstance(convs[0], S.Multi)
-    exp = S.expected_multi(convs) if multi else S.expected_for(convs)
+    custom = bool(convs) and getattr(convs[0], "no_model", False)
+    if custom:
+        exp = [{"wire": [], "cbs": [], "closed": False, "rets": []} for _ in convs]
+        keys = ()
+    else:
+        exp = S.expected_multi(convs) if multi else S.expected_for(convs)
     scs = [c.scenario() for c in convs]
     results, leak, crashes = S.run_sys(scs, par=par)
     diffs = []
@@ -24,7 +29,9 @@ def run_convs(pid, convs, rep, keys=("wire", "cbs", "closed", "rets"), monitors=
     for c, e, r in zip(convs, exp, results):
         if r.get("crash"):
             continue
-        if multi:
+        if custom:
+            o = {"wire": [], "cbs": [], "closed": False, "rets": []}
+        elif multi:
             o = S.observe_multi(r, len(c.segs))
         else:
             o = S.observe(r)
@@ -80,6 +87,17 @@ def run_convs(pid, convs, rep, keys=("wire", "cbs", "closed", "rets"), monitors=
                                "broken": "correspondence of coq/Model/Conn.v with fsm.go on this conversation"},
                          found_input=found):
             rep.sys_found = rep.sys_found or found
+    # peer-manager histories replayed through the model (Peer.handle)
+    ok_res = [(c, sc, r) for c, sc, r in zip(convs, scs, results) if not r.get("crash")]
+    rids = [getattr(c, "remote_id", 0x0A000002) for c, _, _ in ok_res]
+    mbad, nrep = S.mgr_replay([r for _, _, r in ok_res], [sc for _, sc, _ in ok_res], rids)
+    for i, verdict, line in mbad[:3]:
+        c, sc, r = ok_res[i]
+        sig = {"kind": "mgr-replay", "verdict": " ".join(verdict.split()[2:4]), "tag": c.tag}
+        rep.violation(sig, {"what": "peer manager history diverges from the model (Peer.handle) at event %s: %s" % (verdict.split()[1] if len(verdict.split()) > 1 else "?", verdict),
+                            "scenario": sc, "manager_events": [(e["kind"], e["args"]) for e in r["events"] if e["kind"].startswith("m.")][:80],
+                            "replay_line": line[:1500],
+                            "broken": "correspondence of coq/Model/Peer.v (handle) with peer.go on this history"}, found_input=False)
     if leak.get("leaked_goroutines", 0) > 0:
         if rep.violation({"kind": "leak"}, {"what": "goroutines with corebgp frames remain after every server was closed",
                                             "count": leak["leaked_goroutines"], "sample": leak.get("sample", "")[:1500]},
@@ -92,7 +110,7 @@ def run_convs(pid, convs, rep, keys=("wire", "cbs", "closed", "rets"), monitors=
         outcomes[str(last)] += 1
     samples = []
     for c, e, r in list(zip(convs, exp, results))[:3]:
-        o = {} if r.get("crash") else (S.observe_multi(r, len(c.segs)) if multi else S.observe(r))
+        o = {} if (r.get("crash") or custom) else (S.observe_multi(r, len(c.segs)) if multi else S.observe(r))
         samples.append({"tag": c.tag, "steps": c.scenario()["steps"][:8], "expected_returns": short(e["rets"]),
                         "observed_wire": short(o.get("wire", []), 300),
                         "observed_callbacks": short([x[0] for x in o.get("cbs", [])], 200)})
@@ -100,6 +118,7 @@ def run_convs(pid, convs, rep, keys=("wire", "cbs", "closed", "rets"), monitors=
         "evaluations": len(convs), "distinct_nontrivial": len(set(json.dumps(s["steps"]) + json.dumps(s["handler"]) for s in scs)),
         "traces_validated_against_impl": len(convs) - len(crashes),
         "sys_mismatches": len(diffs), "monitor_violations": len(monitor_hits), "crashes": len(crashes),
+        "manager_histories_replayed": nrep, "manager_replay_divergences": len(mbad),
         "leaked_goroutines": leak.get("leaked_goroutines", 0),
         "scenario_streams": dict(tags), "expected_final_return_histogram": dict(outcomes), "samples": samples,
     }
